@@ -984,3 +984,80 @@ pub proof fn lemma_early(op: int, t1: SemType, t2: SemType)
         }
     }
 }
+
+// ---------------------------------------------------------------- complement, emptiness, subtyping
+pub proof fn lemma_val()
+    ensures VAL == 0x3ffeu32
+{
+    assert(VAL == 0x3ffeu32) by (compute);
+}
+pub broadcast proof fn lemma_unknown_is_everything(t: SemType, v: Val)
+    requires t.all == 0x3ffeu32, t.subtype_data@.len() == 0
+    ensures #[trigger] mem(t, v)
+{
+    let c = code_of(tag_of(v));
+    assert((0x3ffeu32 & c) != 0) by (bit_vector)
+        requires c == 2 || c == 4 || c == 8 || c == 16 || c == 32 || c == 64 || c == 128 || c == 256 || c == 512 || c == 1024 || c == 2048 || c == 4096 || c == 8192;
+}
+pub broadcast proof fn lemma_bits_only_wf(t: SemType)
+    requires all_in_val(t.all), t.subtype_data@.len() == 0
+    ensures #[trigger] wf(t)
+{}
+pub broadcast proof fn lemma_bits_only_flat(t: SemType)
+    requires t.subtype_data@.len() == 0
+    ensures #[trigger] flat(t)
+{}
+pub proof fn lemma_val_in_val()
+    ensures all_in_val(0x3ffeu32), all_in_val(0u32)
+{
+    assert((0x3ffeu32 & !0x3ffeu32) == 0) by (bit_vector);
+    assert((0u32 & !0x3ffeu32) == 0) by (bit_vector);
+}
+pub broadcast proof fn lemma_in_val_and(a: u32, b: u32)
+    requires all_in_val(a)
+    ensures #[trigger] all_in_val(a & b)
+{
+    assert((a & !0x3ffeu32) == 0 ==> ((a & b) & !0x3ffeu32) == 0) by (bit_vector);
+}
+pub broadcast proof fn lemma_in_val_or(a: u32, b: u32)
+    requires all_in_val(a), all_in_val(b)
+    ensures #[trigger] all_in_val(a | b)
+{
+    assert((a & !0x3ffeu32) == 0 && (b & !0x3ffeu32) == 0 ==> ((a | b) & !0x3ffeu32) == 0) by (bit_vector);
+}
+pub broadcast proof fn lemma_in_val_code(t: SubTypeTag)
+    ensures all_in_val(#[trigger] code_of(t))
+{
+    let c = code_of(t);
+    assert((c & !0x3ffeu32) == 0) by (bit_vector)
+        requires c == 2 || c == 4 || c == 8 || c == 16 || c == 32 || c == 64 || c == 128 || c == 256 || c == 512 || c == 1024 || c == 2048 || c == 4096 || c == 8192;
+}
+// a non-empty bit-set inside VAL contains one of the 13 tags listed by SubTypeTag::all()
+pub broadcast proof fn lemma_some_tag(all: u32)
+    requires #[trigger] all_in_val(all), all != 0
+    ensures exists|j: int| 0 <= j < 13 && bit(all, code_of(#[trigger] all_tags()[j]))
+{
+    bv_val_nonzero_has_code(all);
+    let t = all_tags();
+    if (all & 8) != 0 { assert(bit(all, code_of(t[0]))); }
+    else if (all & 2) != 0 { assert(bit(all, code_of(t[1]))); }
+    else if (all & 4) != 0 { assert(bit(all, code_of(t[2]))); }
+    else if (all & 64) != 0 { assert(bit(all, code_of(t[3]))); }
+    else if (all & 16) != 0 { assert(bit(all, code_of(t[4]))); }
+    else if (all & 32) != 0 { assert(bit(all, code_of(t[5]))); }
+    else if (all & 128) != 0 { assert(bit(all, code_of(t[6]))); }
+    else if (all & 256) != 0 { assert(bit(all, code_of(t[7]))); }
+    else if (all & 512) != 0 { assert(bit(all, code_of(t[8]))); }
+    else if (all & 1024) != 0 { assert(bit(all, code_of(t[9]))); }
+    else if (all & 2048) != 0 { assert(bit(all, code_of(t[10]))); }
+    else if (all & 4096) != 0 { assert(bit(all, code_of(t[11]))); }
+    else { assert(bit(all, code_of(t[12]))); }
+}
+pub open spec fn sem_empty(t: SemType, defs: Defs) -> bool {
+    t.all == 0 && forall|i: int| 0 <= i < t.subtype_data@.len() ==> proper_empty(*#[trigger] t.subtype_data@[i], defs)
+}
+// what `diff` promises about its result d = a \ b (proved above for the real diff)
+pub open spec fn diff_res(a: SemType, b: SemType, d: SemType) -> bool {
+    (all_in_val(a.all) ==> all_in_val(d.all))
+    && (wf(a) && wf(b) && flat(a) && flat(b) ==> wf(d) && flat(d) && forall|v: Val| #[trigger] mem(d, v) == (mem(a, v) && !mem(b, v)))
+}
